@@ -10,8 +10,17 @@
    The loop is bounded by explicit fuel; running out of fuel is the outcome OutOfFuel, so
    that termination is a statement (Proofs_Unwrap) and not a modelling decision.
 
-   fx = true: code after the fix: commit (urljoin's ValueError is caught and ends the
-   unwrapping without a stream); fx = false: pinned code (ValueError escapes). *)
+   Units.  `timeout` is the configured stream timeout expressed in clock units.  The code
+   after the fix: commits (fx = true) computes deadline = time.time() + timeout / 1000 in
+   seconds and hands the scanner (deadline - now) * 1000 ms and download() (deadline - now)
+   seconds: in clock units, deadline = clock 0 + timeout and every fetch gets exactly the
+   time left.  The pinned code (fx = false) adds the number of MILLISECONDS to
+   time.time() in SECONDS: its deadline is clock 0 + 1000 * timeout, and what it hands out,
+   (deadline - now) "ms" resp. (deadline - now) / 1000 seconds, is the time left to that
+   inflated deadline divided by 1000 (unit_of).  The log records deadline - reading.
+
+   fx = true also: urljoin's ValueError is caught and ends the unwrapping without a
+   stream (pinned: it escapes). *)
 From Coq Require Import ZArith List Bool.
 From Common Require Import Res Str.
 From Untrusted Require Import Base Download.
@@ -29,15 +38,17 @@ Inductive get_out : Type :=
 | GetInvalidSchema                            (* requests.exceptions.InvalidSchema *)
 | GetRequestException                         (* any other RequestException *)
 | GetResponse (ok : bool) (durs : list Z) (uris : list str).
-  (* durs: how long each chunk of iter_content takes to arrive (clock units * 1000 are
-     compared with the timeout, see Download.v); uris = playlists.parse(body) *)
+  (* durs: how long each chunk of iter_content takes to arrive, in clock units;
+     uris = playlists.parse(body) *)
 
-(* http.download(session, uri, timeout = dt / 1000): the body of an ok response whose
+Definition unit_of (fx : bool) : Z := if fx then 1 else 1000.
+
+(* http.download(session, uri, timeout = dt / unit): the body of an ok response whose
    chunk loop (Download.chunks) was not cut off by the deadline, else None; then
    playlists.parse *)
-Definition download (dt : Z) (g : get_out) : option (list str) :=
+Definition download (unit dt : Z) (g : get_out) : option (list str) :=
   match g with
-  | GetResponse true durs uris => if body_slow durs dt then None else Some uris
+  | GetResponse true durs uris => if body_slow unit durs dt then None else Some uris
   | _ => None
   end.
 
@@ -105,7 +116,7 @@ Section Unwrap.
                 if dt <? 0 then (NoStream TimedOutDownload, log1)
                 else
                   let log2 := FDownload u k (k + 2) dt :: log1 in
-                  match download dt (get u) with
+                  match download (unit_of fx) dt (get u) with
                   | None => (NoStream DownloadFailed, log2)
                   | Some [] => (Found u false, log2)
                   | Some (first :: _) =>
@@ -118,11 +129,14 @@ Section Unwrap.
     end.
 End Unwrap.
 
-(* deadline = time.time() + timeout uses reading 0; the loop starts at reading 1 *)
+(* the deadline is computed from reading 0; the loop starts at reading 1 *)
+Definition deadline_of (fx : bool) (clock : nat -> Z) (timeout : Z) : Z :=
+  clock O + unit_of fx * timeout.
+
 Definition unwrap (fx : bool) (scan : uri -> scan_out) (get : uri -> get_out)
            (join : uri -> str -> option uri) (clock : nat -> Z) (timeout : Z)
            (fuel : nat) (start : uri) : outcome * list fetch :=
-  let '(o, log) := loop fx scan get join clock (clock O + timeout) fuel start [] 1 [] in
+  let '(o, log) := loop fx scan get join clock (deadline_of fx clock timeout) fuel start [] 1 [] in
   (o, rev log).
 
 Definition fetch_uri (f : fetch) : uri :=
